@@ -22,15 +22,18 @@ CONSTANTS Nbrs,      \* neighbour names
           Mults,     \* detection multipliers an operator may configure (non-zero)
           Asns       \* peer AS numbers; a change of the peer AS needs a new OPEN (delete + add inside UpdatePeer)
 
-VARIABLES phase,     \* "new" | "running" | "stopped": StopBgp is final (StartBgp answers "server stopped" afterwards)
+VARIABLES grp,       \* the peer group "g": its configuration or Absent (members take ALL of it: through the API nothing
+                     \* is "configured on the neighbour", so OverwriteNeighborConfigWithPeerGroup overwrites every field)
+          phase,     \* "new" | "running" | "stopped": StopBgp is final (StartBgp answers "server stopped" afterwards)
           cfg,       \* [Nbrs -> configuration or Absent]
           reg        \* [Nbrs -> 0 | multiplier of the running helper]     (mechanism layer)
 
-vars == <<phase, cfg, reg>>
+vars == <<grp, phase, cfg, reg>>
 started == phase = "running"
 
-Absent == [present |-> FALSE, bfd |-> FALSE, mult |-> 0, asn |-> 0]
-Conf(b, m, a) == [present |-> TRUE, bfd |-> b, mult |-> m, asn |-> a]
+Absent == [present |-> FALSE, bfd |-> FALSE, mult |-> 0, asn |-> 0, member |-> FALSE]
+Conf(b, m, a) == [present |-> TRUE, bfd |-> b, mult |-> m, asn |-> a, member |-> FALSE]
+AsMember(c) == [c EXCEPT !.member = TRUE]
 Confs == {Conf(b, m, a) : b \in BOOLEAN, m \in Mults, a \in Asns}
 
 (* ---- what the BFD server does with its registry (bfd_server.go) ---- *)
@@ -39,45 +42,75 @@ RegAdd(r, n, c) == IF ~c.bfd THEN r                       \* AddPeer: a disabled
                    ELSE [r EXCEPT ![n] = c.mult]
 RegDel(r, n) == [r EXCEPT ![n] = 0]                       \* deleteBfdPeer: unknown peer is a no-op
 
-Init == /\ phase = "new"
+Init == /\ grp = Absent
+        /\ phase = "new"
         /\ cfg = [n \in Nbrs |-> Absent]
         /\ reg = [n \in Nbrs |-> 0]
 
 StartBgp == /\ phase = "new"
             /\ phase' = "running"
-            /\ UNCHANGED <<cfg, reg>>
+            /\ UNCHANGED <<cfg, reg, grp>>
 
 (* StopBgp: deleteNeighbor for every neighbour (stopNeighbor deregisters each) *)
 StopBgp == /\ started
            /\ phase' = "stopped"
            /\ cfg' = [n \in Nbrs |-> Absent]
            /\ reg' = [n \in Nbrs |-> 0]
+           /\ UNCHANGED grp
 
 AddPeer(n, c) == /\ started /\ ~cfg[n].present
                  /\ cfg' = [cfg EXCEPT ![n] = c]
                  /\ reg' = RegAdd(reg, n, c)               \* addNeighbor
+                 /\ UNCHANGED grp
+
+(* ---- the peer group ---- *)
+AddGroup(c) == /\ started /\ ~grp.present
+               /\ grp' = c
+               /\ UNCHANGED <<phase, cfg, reg>>
+(* AddPeer naming the group: the neighbour is configured as the group says *)
+AddMember(n) == /\ started /\ grp.present /\ ~cfg[n].present
+                /\ cfg' = [cfg EXCEPT ![n] = AsMember(grp)]
+                /\ reg' = RegAdd(reg, n, grp)
+                /\ UNCHANGED <<phase, grp>>
 
 DeletePeer(n) == /\ started /\ cfg[n].present
                  /\ cfg' = [cfg EXCEPT ![n] = Absent]
                  /\ reg' = RegDel(reg, n)                  \* stopNeighbor, whatever the configuration says
-                 /\ UNCHANGED phase
+                 /\ UNCHANGED <<phase, grp>>
 
 NeedsOpen(old, new) == old.asn # new.asn
 
 (* updateNeighbor: a change that needs a new OPEN deletes and re-adds the neighbour (the new configuration
    is already published when stopNeighbor runs); any other change goes through updateBfdPeer *)
+UpdReg(r, n, old, c) == IF NeedsOpen(old, c)
+                       THEN RegAdd(RegDel(r, n), n, c)
+                       ELSE LET r1 == IF old.bfd THEN RegDel(r, n) ELSE r
+                            IN  RegAdd(r1, n, c)
 UpdatePeer(n, c) ==
-  /\ started /\ cfg[n].present /\ c # cfg[n]
+  /\ started /\ cfg[n].present /\ ~cfg[n].member /\ c # cfg[n]
   /\ cfg' = [cfg EXCEPT ![n] = c]
-  /\ reg' = IF NeedsOpen(cfg[n], c)
-            THEN RegAdd(RegDel(reg, n), n, c)
-            ELSE LET r1 == IF cfg[n].bfd THEN RegDel(reg, n) ELSE reg
-                 IN  RegAdd(r1, n, c)
+  /\ reg' = UpdReg(reg, n, cfg[n], c)
+  /\ UNCHANGED grp
+
+(* UpdatePeerGroup replaces the group's configuration.  AS OBSERVED it does not reach the members that exist
+   (updatePeerGroup calls updateNeighbor with the member's stored configuration, and
+   oc.SetDefaultNeighborConfigValues returns at once for a configuration that has been through it before -
+   State.LocalAs # 0 - so the group's new values are never written over it): members keep the configuration
+   they were added with, only neighbours added LATER take the new one.  The model follows the code (the
+   divergence from what an operator would expect is recorded in DESIGN.md section 6; none of the twenty
+   properties speaks about peer-group propagation, and the helper lifecycle is judged against the
+   configuration each neighbour really has). *)
+Members == {n \in Nbrs : cfg[n].present /\ cfg[n].member}
+UpdateGroup(c) ==
+  /\ started /\ grp.present /\ c # grp
+  /\ grp' = c
+  /\ UNCHANGED <<phase, cfg, reg>>
 
 Next == \/ StartBgp /\ TRUE
         \/ StopBgp
         \/ \E n \in Nbrs, c \in Confs : (AddPeer(n, c) \/ UpdatePeer(n, c)) /\ UNCHANGED phase
-        \/ \E n \in Nbrs : DeletePeer(n)
+        \/ \E n \in Nbrs : DeletePeer(n) \/ AddMember(n)
+        \/ \E c \in Confs : AddGroup(c) \/ UpdateGroup(c)
 
 Spec == Init /\ [][Next]_vars
 
